@@ -322,3 +322,34 @@ func opaqueNoEffect(doc string) stdModel {
 		return out
 	}
 }
+
+// Big-endian decoders of encoding/binary: exact arithmetic definition; the slice must be long enough (the library panics otherwise).
+func init() {
+	for _, n := range []int{2, 4, 8} {
+		n := n
+		name := fmt.Sprintf("encoding/binary.bigEndian.Uint%d", n*8)
+		stdModels[name] = func(vc *VC, s *State, call *ast.CallExpr, args []*Term) []*Term {
+			vc.prog.Assumed[fmt.Sprintf("binary.BigEndian.Uint%d(b) == sum b[i]*256^(%d-i), panics when len(b) < %d", n*8, n-1, n)] = true
+			b := args[0]
+			vc.oblige(s, "safety", vc.siteName("call", call), fmt.Sprintf("index out of range in BigEndian.Uint%d", n*8), call.Pos(), Ge(sliceLen(b), IntLit(int64(n))))
+			return []*Term{bePack(sliceElems(b), IntLit(0), n)}
+		}
+	}
+}
+
+// bePack: big-endian value of n bytes of arr starting at off.
+func bePack(arr, off *Term, n int) *Term {
+	var sum *Term
+	for i := 0; i < n; i++ {
+		t := Select(arr, Add(off, IntLit(int64(i))))
+		if i < n-1 {
+			t = op("*", SInt, BigLit(pow2(8*(n-1-i))), t)
+		}
+		if sum == nil {
+			sum = t
+		} else {
+			sum = Add(sum, t)
+		}
+	}
+	return sum
+}
